@@ -1046,3 +1046,260 @@ def classify_failure(prop, name, pr, model):
     if falses:
         return 'explicit-false:' + '+'.join(sorted(falses))
     return ''
+
+
+# ---------------------------------------------------------------------------
+# module mode
+# ---------------------------------------------------------------------------
+
+def unknown_item_tokens(I, u):
+    toks = []
+    for a in I.items(u, 'attrs'):
+        toks += I.toks(a)
+    toks += I.toks(u.f('vis'))
+    toks += I.P.flat(u.f('tokens').toks)
+    return toks
+
+
+def spec_mod_mode(ex, variant, attr0, item0, out_value):
+    O = Obligations()
+    I0 = In(ex)
+    items_in = I0.items(item0, 'items')
+    fns = []
+    for it in items_in:
+        inner = ex.force_slot(it.fields, 0)
+        if it.variant == 'PubFn':
+            fns.append(ex.force_slot(inner.fields, 0))
+    r = spec_fn_like(ex, 'mod', variant, attr0, fns, out_value, O)
+    if r is None:
+        return O
+    I, eff, deps, toks = r['I'], r['eff'], r['deps'], r['toks']
+    mod_attrs = I.items(item0, 'attrs')
+    for a in mod_attrs:
+        attr_kind(I, a)
+    I.f(item0, 'vis')
+    req_vis = I.f(attr0, 'trait_visibility')
+    toks = I.P.flat(out_value.fields[0].toks)
+    try:
+        top = rsview.parse_items(toks)
+    except Exception as e:
+        O.add('C15', 'generated-items-parse', False, f'{type(e).__name__}: {e}')
+        return O
+    kinds = [t.kind for t in top]
+    O.add('C02', 'module-followed-only-by-the-re-export', kinds == ['mod', 'use'], f'{kinds}')
+    if kinds != ['mod', 'use']:
+        return O
+    m, use = top
+    # ---- C02: the module as written, items in order, generated items appended -------------------------------------
+    head = []
+    for a in mod_attrs:
+        head += I.toks(a)
+    head += I.toks(item0.f('vis')) + [('I', 'mod'), ('I', I.f(item0, 'ident').name)]
+    O.add('C02', 'module-header-unaltered', toks_eq(m.tokens[:-1], head), f'`{show(m.tokens[:-1], 200)}` vs `{show(head, 200)}`')
+    body = m.body
+    pos = 0
+    ok = True
+    for it in items_in:
+        inner = it.fields[0]
+        want = input_fn_tokens(I, inner.fields[0]) if it.variant == 'PubFn' else unknown_item_tokens(I, inner)
+        got = body[pos:pos + len(want)]
+        O.add('C02', 'module-item-re-emitted-unaltered-in-order', toks_eq(got, want), f'`{show(got, 200)}` vs `{show(want, 200)}`')
+        pos += len(want)
+    try:
+        gen_items = rsview.parse_items(body[pos:])
+    except Exception as e:
+        O.add('C15', 'generated-items-parse', False, f'{type(e).__name__}: {e}')
+        return O
+    gk = [g.kind for g in gen_items]
+    O.add('C02', 'generated-items-appended-at-the-end-of-the-module', gk == ['trait', 'impl'], f'{gk}')
+    if gk != ['trait', 'impl']:
+        return O
+    trait_item, impl_item = gen_items
+    tm, im = trait_impl_expectations(I, eff, deps, fns, trait_item, impl_item, attr0, 'mod', O, mod_attrs, None)
+    has_at = any(attr_kind(I, a) == 'async_trait' for a in mod_attrs)
+    if len(tm) == len(fns) and len(im) == len(fns):
+        for k, (f, d) in enumerate(zip(fns, deps)):
+            fn_method_expectations(I, f, d, eff, O, tm[k], im[k], 'mod', '', f'fn{k}', has_at)
+            # cfg on a module fn must also guard what is generated for it (C18)
+            for a in I.items(f, 'fn_attrs'):
+                at = I.toks(a)
+                if len(at) == 2 and at[1][0] == 'G' and at[1][2] and is_i(at[1][2][0], 'cfg'):
+                    guarded = any(toks_eq(x, at[1][2]) is True for x in tm[k].attrs) and any(toks_eq(x, at[1][2]) is True for x in im[k].attrs)
+                    O.add('C18', 'cfg-on-a-module-fn-also-guards-its-trait-method', guarded,
+                          f'`#[{show(at[1][2])}]` on fn{k} but not on the generated trait method / delegating method', cls='cfg-on-module-fn')
+    # ---- C13 / C08: visibility of the trait inside the module and of the re-export ---------------------------------------
+    if req_vis.variant == 'Inherited':
+        want_vis = [('I', 'pub'), ('G', '(', [('I', 'super')])]
+    else:
+        want_vis = I.toks(req_vis)
+    O.add('C13', 'module-trait-visibility', toks_eq(trait_item.vis, want_vis), f'`{show(trait_item.vis)}` vs `{show(want_vis)}`')
+    tid = I.f(attr0, 'trait_ident').name
+    want_use = I.toks(req_vis) + [('I', 'use'), ('I', I.f(item0, 'ident').name), ('P', '::'), ('I', tid), ('P', ';')]
+    O.add('C13', 're-export-with-the-requested-visibility', toks_eq(use.tokens, want_use), f'`{show(use.tokens)}` vs `{show(want_use)}`')
+    O.add('C08', 'trait-named-as-requested', name_eq(trait_item.name[1], tid))
+    bad = c19_unrooted_idents(body[pos:] + use.tokens)
+    O.add('C19', 'macro-originated-identifiers-are-rooted-or-reserved', not bad, f'bare identifiers {sorted(set(bad))}')
+    return O
+
+
+# ---------------------------------------------------------------------------
+# impl-block mode (dependency inversion, the implementation side)
+# ---------------------------------------------------------------------------
+
+def spec_impl_mode(ex, attr0, item0, out_value):
+    O = Obligations()
+    I0 = In(ex)
+    kind = I0.f(attr0, 'impl_kind').variant
+    items_in = I0.items(item0, 'items')
+    fns = []
+    for it in items_in:
+        inner = ex.force_slot(it.fields, 0)
+        if it.variant == 'Fn':
+            fns.append(ex.force_slot(inner.fields, 0))
+    r = spec_fn_like(ex, 'impl', 'entrait', attr0, fns, out_value, O)
+    if r is None:
+        return O
+    I, eff, deps, toks = r['I'], r['eff'], r['deps'], r['toks']
+    attrs_in = I.items(item0, 'attrs')
+    for a in attrs_in:
+        attr_kind(I, a)
+    I.f(item0, 'unsafety')
+    self_ty = I.toks(I.f(item0, 'self_ty'))
+    toks = I.P.flat(out_value.fields[0].toks)
+    try:
+        top = rsview.parse_items(toks)
+    except Exception as e:
+        O.add('C15', 'generated-items-parse', False, f'{type(e).__name__}: {e}')
+        return O
+    kinds = [t.kind for t in top]
+    O.add('C02', 'inherent-impl-then-trait-impl', kinds == ['impl', 'impl'], f'{kinds}')
+    if kinds != ['impl', 'impl']:
+        return O
+    inh, timpl = top
+    # ---- C02: items re-emitted inside an inherent impl ---------------------------------------------------------------
+    O.add('C02', 'inherent-impl-of-the-self-type', inh.trait_ref is None and toks_eq(inh.self_ty, self_ty), f'`{show(inh.self_ty)}`')
+    O.add('C02', 'unsafe-kept-on-the-inherent-impl', inh.unsafety == (I.f(item0, 'unsafety').variant == 'Some'))
+    pos = 0
+    for it in items_in:
+        inner = it.fields[0]
+        want = input_fn_tokens(I, inner.fields[0]) if it.variant == 'Fn' else unknown_item_tokens(I, inner)
+        got = inh.body[pos:pos + len(want)]
+        O.add('C02', 'impl-item-re-emitted-unaltered-in-order', toks_eq(got, want), f'`{show(got, 200)}` vs `{show(want, 200)}`')
+        pos += len(want)
+    O.add('C02', 'nothing-else-inside-the-inherent-impl', pos == len(inh.body), f'extra `{show(inh.body[pos:], 120)}`')
+    non_at = [I.toks(a)[1][2] for a in attrs_in if attr_kind(I, a) != 'async_trait']
+    O.add('C18', 'non-async_trait-attributes-stay-on-the-inherent-impl', len(inh.attrs) == len(non_at) and
+          zand(*[toks_eq(a, b) for a, b in zip(inh.attrs, non_at)]), f'{[show(a, 60) for a in inh.attrs]}')
+    # ---- C07: impl TraitImpl<EntraitT> for X where Impl<EntraitT>: bounds ---------------------------------------------------
+    tp = I.toks(I.f(item0, 'trait_path'))
+    # generic arguments: EntraitT, then the non-dependency type / const parameters of the fns (they are lifted to the trait)
+    targs = [[('I', 'EntraitT')]]
+    for f, d in zip(fns, deps):
+        gen_in = I.f(I.f(f, 'fn_sig'), 'generics')
+        for gp in I.items(gen_in, 'params'):
+            if gp.variant == 'Lifetime':
+                continue
+            inner = ex.force_slot(gp.fields, 0)
+            nm = I.f(inner, 'ident').name
+            if gp.variant == 'Type' and d.kind == 'generic' and d.ident == nm:
+                continue
+            targs.append([('I', nm)])
+    want_ref = tp + [('P', '<')]
+    for k, a in enumerate(targs):
+        if k:
+            want_ref.append(('P', ','))
+        want_ref += a
+    want_ref.append(('P', '>'))
+    O.add('C07', 'implements-TraitImpl<EntraitT>-for-the-self-type', timpl.trait_ref is not None and toks_eq(timpl.trait_ref, want_ref) and
+          toks_eq(timpl.self_ty, self_ty), f'`{show(timpl.trait_ref or [])}` for `{show(timpl.self_ty)}`')
+    want_bounds = ['Sync', "'static"]   # the dependency of an implementation fn is always `&Impl<T>`
+    g0 = timpl.generics[0] if timpl.generics else []
+    O.add('C04', 'impl-type-parameter-bounds-are-Sync[+Send]+static', parse_t_bounds(g0) == ('EntraitT', want_bounds), f'`{show(g0)}`')
+    all_bounds = []
+    for d in deps:
+        if d.kind == 'generic':
+            all_bounds += d.bounds
+    preds = list(timpl.where)
+    if all_bounds:
+        want = list(IMPL_PATH) + [('P', ':')]
+        for k, b in enumerate(all_bounds):
+            if k:
+                want.append(('P', '+'))
+            want += b
+        O.add('C04', 'impl-where-clause-requires-exactly-the-declared-bounds', bool(preds) and toks_eq(preds[0], want),
+              f'`{show(preds[0] if preds else [], 200)}` vs `{show(want, 200)}`')
+    else:
+        O.add('C04', 'no-undeclared-requirement-on-Impl<T>', not any(toks_eq(p[:len(IMPL_PATH)], IMPL_PATH) is True for p in preds), f'{[show(p, 80) for p in preds]}')
+    im = [it for it in timpl.items if it.kind == 'fn']
+    O.add('C08', 'one-method-per-function', len(im) == len(fns) and len(timpl.items) == len(im), f'{len(im)} methods for {len(fns)} fns')
+    has_at = any(attr_kind(I, a) == 'async_trait' for a in attrs_in)
+    at_attrs = [I.toks(a)[1][2] for a in attrs_in if attr_kind(I, a) == 'async_trait']
+    O.add('C12', 'async_trait-re-applied-to-the-trait-impl', len(timpl.attrs) == len(at_attrs) and zand(*[toks_eq(a, b) for a, b in zip(timpl.attrs, at_attrs)]),
+          f'{[show(a, 60) for a in timpl.attrs]}')
+    mode = 'impl_static' if kind == 'Static' else 'impl_dyn'
+    if len(im) == len(fns):
+        for k, (f, d) in enumerate(zip(fns, deps)):
+            impl_method_expectations(I, f, d, O, im[k], mode, f'fn{k}', has_at)
+            for a in I.items(f, 'fn_attrs'):
+                at = I.toks(a)
+                if len(at) == 2 and at[1][0] == 'G' and at[1][2] and is_i(at[1][2][0], 'cfg'):
+                    guarded = any(toks_eq(x, at[1][2]) is True for x in im[k].attrs)
+                    O.add('C18', 'cfg-on-an-impl-block-fn-also-guards-its-delegating-method', guarded,
+                          f'`#[{show(at[1][2])}]` on fn{k} but not on the generated method', cls='cfg-on-impl-block-fn')
+    bad = c19_unrooted_idents(timpl.tokens)
+    O.add('C19', 'macro-originated-identifiers-are-rooted-or-reserved', not bad, f'bare identifiers {sorted(set(bad))}')
+    dyn_ok = mode == 'impl_dyn'
+    O.add('C14', 'no-trait-object-or-box-in-static-delegation', dyn_ok or not contains_macro_ident(timpl.tokens, ('dyn', 'Box')))
+    return O
+
+
+def impl_method_expectations(I, f, d, O, mi, mode, tag, has_async_trait):
+    """`fn m(__impl: &Impl<T>, args) { Self::m(__impl, args) }` (static) / `fn m(&self, __impl: &Impl<T>, args) {..}` (dynamic)"""
+    ex = I.ex
+    sig = I.f(f, 'fn_sig')
+    fname = I.f(sig, 'ident').name
+    is_async = I.f(sig, 'asyncness').variant == 'Some'
+    inputs = I.items(sig, 'inputs')
+    O.add('C07', f'{tag}:method-named-like-fn', name_eq(mi.name[1], fname))
+    params = [p for p in mi.params if p.receiver is None]
+    recv = [p for p in mi.params if p.receiver is not None]
+    names = [p.name() for p in params]
+    if any(n is None for n in names):
+        O.add('C16', f'{tag}:every-parameter-is-a-plain-identifier', False, f'{[show(p.pat) for p in params]}')
+        return
+    n_user = len(inputs) - (0 if d.kind == 'nodeps' else 1)
+    impl_ty = [('P', '&')] + list(IMPL_PATH)
+    if mode == 'impl_static':
+        O.add('C07', f'{tag}:static-shape-(__impl: &Impl<T>, args)', len(recv) == 0 and len(params) == n_user + 1 and names[0] == '__impl'
+              and toks_eq(params[0].ty, impl_ty) is True, f'recv={len(recv)} params `{[show(p.pat) + ":" + show(p.ty) for p in params]}`')
+    else:
+        O.add('C07', f'{tag}:dynamic-shape-(&self, __impl: &Impl<T>, args)', len(recv) == 1 and recv[0].receiver['ref'] and mi.params[0].receiver is not None
+              and len(params) == n_user + 1 and names[0] == '__impl' and toks_eq(params[0].ty, impl_ty) is True,
+              f'recv={len(recv)} params `{[show(p.pat) + ":" + show(p.ty) for p in params]}`')
+    if len(params) != n_user + 1:
+        return
+    # body: Self::f(__impl, args)[.await]; the dependency is forwarded first (dropped only for a fn without deps)
+    fwd = names if d.kind != 'nodeps' else names[1:]
+    args = []
+    for k, n in enumerate(fwd):
+        if k:
+            args.append(('P', ','))
+        args.append(('I', n))
+    exp = [('I', 'Self'), ('P', '::'), ('I', fname), ('G', '(', args)]
+    if is_async:
+        exp += [('P', '.'), ('I', 'await')]
+    body = strip_trailing_commas(list(mi.body or []))
+    O.add('C07', f'{tag}:delegating-body-is-Self::fn(__impl, args in order)[.await]', toks_eq(body, exp), f'`{show(body, 200)}` expected `{show(exp, 200)}`')
+    O.add('C12', f'{tag}:await-iff-async', has_await(body) == is_async)
+    user_params = inputs if d.kind == 'nodeps' else inputs[1:]
+    for k, up in enumerate(user_params):
+        if up.variant != 'Typed':
+            continue
+        pt = ex.force_slot(up.fields, 0)
+        O.add('C03', f'{tag}:param{k}:type-unchanged', toks_eq(params[k + 1].ty, I.toks(I.f(pt, 'ty'))))
+        O.add('C18', f'{tag}:param{k}:attributes-stripped', len(params[k + 1].attrs) == 0)
+    q_in = [q for q in qualifiers_of(I, sig) if q != 'const']
+    O.add('C03', f'{tag}:qualifiers-kept', [q for q in mi.quals if q != 'const'] == q_in, f'input {q_in} generated {mi.quals}')
+    out_node = I.f(sig, 'output')
+    ret_in = I.toks(out_node.fields[1]) if out_node.variant == 'Type' else None
+    O.add('C03', f'{tag}:return-type-unchanged', (mi.ret is None and ret_in is None) or (mi.ret is not None and ret_in is not None and toks_eq(mi.ret, ret_in)))
